@@ -9,10 +9,14 @@ package gnet
 
 import (
 	"fmt"
+	"net"
 	"os"
 	"testing"
 
+	"golang.org/x/sys/unix"
+
 	"github.com/panjf2000/gnet/v2/internal/vsup"
+	"github.com/panjf2000/gnet/v2/pkg/netpoll"
 )
 
 func TestVerifRegistryCover(t *testing.T) {
@@ -168,4 +172,89 @@ func describe(c *conn) string {
 		return "nil"
 	}
 	return fmt.Sprintf("conn(fd=%d)", c.fd)
+}
+
+// TestVerifRegistryInLoop: the registry as the event loop itself uses it -- registration (register0), close
+// (el.close), a registration the poller refuses, and the shutdown pattern (closeConns): after every step the
+// count, the lookups and an iteration must show exactly the live connections.
+func TestVerifRegistryInLoop(t *testing.T) {
+	rep := vsup.NewReport("registry-in-loop")
+	p, err := netpoll.OpenPoller()
+	if err != nil {
+		t.Fatal(err)
+	}
+	defer p.Close() //nolint:errcheck
+	el := &eventloop{engine: &engine{opts: &Options{Logger: nullLogger{}}}, poller: p, eventHandler: &BuiltinEventEngine{}}
+	el.connections.init()
+	live := map[int]*conn{}
+	check := func(step string) {
+		rep.Eval(step)
+		if n := int(el.countConn()); n != len(live) {
+			rep.Violation("registry/loop/count", fmt.Sprintf("%s: count %d, %d live connections", step, n, len(live)), nil)
+		}
+		seen := 0
+		el.connections.iterate(func(c *conn) bool {
+			seen++
+			if live[c.fd] != c {
+				rep.Violation("registry/loop/iterate", fmt.Sprintf("%s: iterate visits fd %d which is not live", step, c.fd), nil)
+			}
+			return true
+		})
+		if seen != len(live) {
+			rep.Violation("registry/loop/iterate", fmt.Sprintf("%s: iterate visited %d, %d live", step, seen, len(live)), nil)
+		}
+	}
+	var others []int
+	mk := func() *conn {
+		fds, err := unix.Socketpair(unix.AF_UNIX, unix.SOCK_STREAM|unix.SOCK_NONBLOCK|unix.SOCK_CLOEXEC, 0)
+		if err != nil {
+			t.Fatal(err)
+		}
+		others = append(others, fds[1])
+		return newStreamConn("unix", fds[0], el, &unix.SockaddrUnix{}, &net.UnixAddr{}, &net.UnixAddr{})
+	}
+	rng := vsup.NewRng(vsup.Seed() + 14)
+	for round := 0; round < 40; round++ {
+		switch rng.Intn(4) {
+		case 0, 1: // a registration that succeeds
+			c := mk()
+			if err := el.register0(c); err != nil {
+				t.Fatalf("register0: %v", err)
+			}
+			live[c.fd] = c
+			check("register")
+		case 2: // a registration the poller refuses (a descriptor that cannot be polled): no entry may stay behind
+			fd, err := unix.Open("/dev/null", unix.O_RDWR|unix.O_CLOEXEC, 0)
+			if err != nil {
+				t.Fatal(err)
+			}
+			c := newStreamConn("tcp", fd, el, &unix.SockaddrInet4{}, &net.TCPAddr{}, &net.TCPAddr{})
+			if err := el.register0(c); err == nil {
+				rep.Violation("registry/loop/register", "register0 of an unpollable descriptor succeeded", nil)
+			}
+			if got := el.connections.getConn(fd); got != nil {
+				rep.Violation("registry/loop/lookup", fmt.Sprintf("refused registration: getConn(%d) still yields a connection", fd), nil)
+			}
+			check("register-refused")
+		case 3: // close one
+			for fd, c := range live {
+				_ = el.close(c, nil)
+				delete(live, fd)
+				if el.connections.getConn(fd) != nil {
+					rep.Violation("registry/loop/lookup", fmt.Sprintf("closed: getConn(%d) still yields a connection", fd), nil)
+				}
+				break
+			}
+			check("close")
+		}
+	}
+	el.closeConns()
+	live = map[int]*conn{}
+	check("closeConns")
+	for _, fd := range others {
+		_ = unix.Close(fd)
+	}
+	if err := rep.Write(); err != nil {
+		t.Fatal(err)
+	}
 }
